@@ -8,12 +8,16 @@
 (*    delegation, constructor clamping, final screen check) composed with   *)
 (*    the oracle: it accepts exactly the cells Clip accepts and puts them   *)
 (*    exactly where Clip says; Fill writes exactly the clip rectangle; a    *)
-(*    two-cell glyph is written iff both halves are accepted.               *)
+(*    two-cell glyph is written iff both halves are accepted, whether its   *)
+(*    width is stated in the cell or left to be measured (Measure = FALSE   *)
+(*    is the code as found: the overhang test trusted the stated width).    *)
 (* The clipping is separable per axis, so the deep configurations explore   *)
 (* one axis with the full ranges (YOffs = {0}, YSizes = {1}, Rows = 1) and  *)
 (* the 2D configurations explore both axes with smaller ranges.             *)
 EXTENDS Clip, WindowImpl, TLC
-CONSTANTS Cols, Rows, Depth, Offs, Sizes, YOffs, YSizes, CoordsX, CoordsY, Repaired
+CONSTANTS Cols, Rows, Depth, Offs, Sizes, YOffs, YSizes, CoordsX, CoordsY, Repaired, Measure
+
+Fx == [wide |-> Repaired, measure |-> Measure]
 
 (* Named value sets for the configuration files (a .cfg cannot write a     *)
 (* negative number).                                                        *)
@@ -71,12 +75,17 @@ AcceptedInsideOwnExtent ==
 (* ---- implementation against oracle ---- *)
 SetCellConforms ==
   \A c \in CoordsX : \A r \in CoordsY :
-     ISetCell(wins, Top, c, r, 1, Cols, Rows, Repaired)
+     ISetCell(wins, Top, c, r, 1, Cols, Rows, Fx)
         = (IF Accepts(w, c, r) THEN Landing(w, c, r) ELSE None)
 WideCellConforms ==
   \A c \in CoordsX : \A r \in CoordsY :
-     LET got == ISetCell(wins, Top, c, r, 2, Cols, Rows, Repaired) IN
-     IF Accepts(w, c, r) /\ Accepts(w, c + 1, r) THEN got = Landing(w, c, r) ELSE got = None
-FillConforms == IFill(wins, Top, Cols, Rows, Repaired) = CellsOf(w.clip)
+     LET got == ISetCell(wins, Top, c, r, Eff(2, 2, Fx), Cols, Rows, Fx) IN
+     IF AcceptsWide(w, c, r, 2) THEN got = Landing(w, c, r) ELSE got = None
+(* the same glyph in a cell whose width is left to be measured (stated 0) *)
+AutoCellConforms ==
+  \A c \in CoordsX : \A r \in CoordsY :
+     LET got == ISetCell(wins, Top, c, r, Eff(0, 2, Fx), Cols, Rows, Fx) IN
+     IF AcceptsWide(w, c, r, 2) THEN got = Landing(w, c, r) ELSE got = None
+FillConforms == IFill(wins, Top, Cols, Rows, Fx) = CellsOf(w.clip)
 ExtentConforms == wins[Top].w = w.w /\ wins[Top].h = w.h
 =============================================================================
